@@ -254,6 +254,20 @@ func (X *Exec) execAlloc(fr *Frame, i *ssa.Alloc, st *State) {
 	a := &Addr{Kind: AddrObj, Ref: r, ObjT: T, T: T}
 	X.store(st, a, X.zero(T))
 	fr.Regs[i] = &Val{T: r, GT: i.Type()}
+	if sT := structOf(T); sT != nil && unpublishedStruct(i) {
+		// an object that nobody else can reach until this function returns it: unknown calls cannot change it
+		for k := 0; k < sT.NumFields(); k++ {
+			n, s := X.E.FieldHeap(T, k)
+			st.Stable = append(st.Stable, stableRec{Heap: n, Sort: s, Ref: r, Alloc: i, Unpublished: true})
+		}
+	}
+	if sT := structOf(T); sT != nil && ownedCell(i) {
+		// a struct-valued local that closures only read (whole-value loads and stores only)
+		for k := 0; k < sT.NumFields(); k++ {
+			n, s := X.E.FieldHeap(T, k)
+			st.Stable = append(st.Stable, stableRec{Heap: n, Sort: s, Ref: r, Alloc: i})
+		}
+	}
 	if structOf(T) == nil && ownedCell(i) {
 		// a local that lives on the heap only because closures READ it: nothing but this function's own
 		// assignments changes it, so it survives havoc-everything events
@@ -272,6 +286,93 @@ func ownedCell(a *ssa.Alloc) bool {
 	}
 	ok := ownedValue(a, 0)
 	ownedCache[a] = ok
+	return ok
+}
+
+// unpublishedStruct: the only uses of the freshly allocated struct are stores into / loads from its fields and
+// returning it, so until the function returns no other code holds a reference to it.
+var unpublishedCache = map[*ssa.Alloc]bool{}
+
+func unpublishedStruct(a *ssa.Alloc) bool {
+	if v, ok := unpublishedCache[a]; ok {
+		return v
+	}
+	tracked := map[ssa.Value]bool{}
+	var usesOK func(v ssa.Value) bool
+	usesOK = func(v ssa.Value) bool {
+		if tracked[v] {
+			return true
+		}
+		tracked[v] = true
+		if v.Referrers() == nil {
+			return false
+		}
+		for _, ref := range *v.Referrers() {
+			switch r := ref.(type) {
+			case *ssa.DebugRef, *ssa.Return:
+			case *ssa.FieldAddr:
+				if r.Referrers() == nil {
+					return false
+				}
+				for _, fr := range *r.Referrers() {
+					switch u := fr.(type) {
+					case *ssa.DebugRef:
+					case *ssa.Store:
+						if u.Addr != r {
+							return false
+						}
+					case *ssa.UnOp:
+						if u.Op != token.MUL {
+							return false
+						}
+					default:
+						return false
+					}
+				}
+			case *ssa.Store:
+				// the pointer may be kept in a plain local variable (naive form spills every local)
+				l, isLocal := r.Addr.(*ssa.Alloc)
+				if r.Val != v || !isLocal || l.Heap || l.Referrers() == nil {
+					return false
+				}
+				for _, lr := range *l.Referrers() {
+					switch u := lr.(type) {
+					case *ssa.DebugRef:
+					case *ssa.Store:
+						if u.Addr != l {
+							return false
+						}
+					case *ssa.UnOp:
+						if u.Op != token.MUL || !usesOK(u) {
+							return false
+						}
+					default:
+						return false
+					}
+				}
+			default:
+				return false
+			}
+		}
+		return true
+	}
+	ok := usesOK(a)
+	if ok {
+		// no tracked pointer is stored INTO a field (that would publish it through the object itself: harmless, but
+		// keep the rule simple) - checked here because the tracked set is complete only now
+		for v := range tracked {
+			for _, ref := range *v.Referrers() {
+				if fa, isFA := ref.(*ssa.FieldAddr); isFA {
+					for _, fr := range *fa.Referrers() {
+						if u, isSt := fr.(*ssa.Store); isSt && tracked[u.Val] {
+							ok = false
+						}
+					}
+				}
+			}
+		}
+	}
+	unpublishedCache[a] = ok
 	return ok
 }
 
